@@ -177,6 +177,24 @@ namespace nmtools::meta
         using type = value_type;
     }; // fixed_ndarray_shape
 
+    // the three operands of where_t are already broadcast to one common shape: the view has as many
+    // elements as each of them (the decorator default would add the three sizes)
+    template <typename condition_t, typename x_t, typename y_t>
+    struct fixed_size<
+        view::decorator_t<view::where_t, condition_t, x_t, y_t>
+    >
+    {
+        static constexpr auto value = fixed_size_v<condition_t>;
+    }; // fixed_size
+
+    template <typename condition_t, typename x_t, typename y_t>
+    struct bounded_size<
+        view::decorator_t<view::where_t, condition_t, x_t, y_t>
+    >
+    {
+        static constexpr auto value = bounded_size_v<condition_t>;
+    }; // bounded_size
+
     template <typename condition_t, typename x_t, typename y_t>
     struct is_ndarray< view::decorator_t< view::where_t, condition_t, x_t, y_t >>
     {
